@@ -154,3 +154,37 @@ func VerifC03Reject() {
 	verifAssert(vfsTouched() == 0, "C03.reject.nofs")
 	verifReach("C03.reject.end")
 }
+
+func init() {
+	verifRegister("VerifC03Bytes", VerifC03Bytes)
+}
+
+// VerifC03Bytes: the text pair at byte level. Programs of n nodes with concrete distinct names (every shape), the
+// four branch strings 0..2 arbitrary ASCII bytes each, so code that looks INTO the branch strings (trimming,
+// searching) is executed on symbolic bytes: From-Root text == From-Markdown text == reference rendering.
+func VerifC03Bytes() {
+	n := verifN()
+	k := 0
+	root, _ := buildProgram(n-1, func(string) string { k++; return "n" + string(rune('0'+k)) }, "C03.add")
+	var rows []string
+	mMarkdownRows(root, 0, &rows)
+	bs := func(label string) string {
+		l := int(verifChoose("len_"+label, 0, 2))
+		s := verifBytes(label, l)
+		for j := 0; j < len(s); j++ {
+			verifAssume(s[j] != '\n' && s[j] < 0x80)
+		}
+		return s
+	}
+	ld, li, md, mi := bs("ld"), bs("li"), bs("md"), bs("mi")
+	o1, o2 := WithBranchFormatLastNode(ld, li), WithBranchFormatIntermedialNode(md, mi)
+	w1, w2 := newVerifWriter(), newVerifWriter()
+	verifContext("C03.bytes")
+	e1 := OutputFromRoot(w1, root.real, o1, o2)
+	e2 := OutputFromMarkdown(w2, &verifReader{lines: rows}, o1, o2)
+	verifAssert(e1 == nil && e2 == nil, "C03.bytes.nil")
+	verifObserve("text", w1.out)
+	verifAssert(w1.out == w2.out, "C03.bytes.text")
+	verifAssert(w1.out == mRender(root, ld, li, md, mi), "C03.bytes.ref")
+	verifReach("C03.bytes.end")
+}
